@@ -126,8 +126,14 @@ deriving Repr, DecidableEq, Inhabited
 def docShape : Nat → String
   | 0 => "[]string" | 1 => "[]Y" | 2 => "map[string]interface{}" | 3 => "map[string]interface{}"
   | 4 => "map[string]int" | 5 => "map[string]Y" | 6 => "Y" | 7 => "[][]int"
+  | 8 => "[]X_Item" | 9 => "[]X_Item" | 10 => "[]X_Item"   -- items with a declaration of their own: enum, object + additional, union
   | _ => "?"
 
-def shapeRowOk (r : ShapeRow) : Bool := r.got == (if r.asMember then "*" else "") ++ docShape r.shape
+/-- as the member `m` of `H` the item type is named after the path to it -/
+def docShapeMember : Nat → String
+  | 8 => "[]HM" | 9 => "[]H_M_Item" | 10 => "[]H_M_Item"
+  | n => docShape n
+
+def shapeRowOk (r : ShapeRow) : Bool := r.got == (if r.asMember then "*" ++ docShapeMember r.shape else docShape r.shape)
 
 end OapiVerif.TypeMap
